@@ -362,6 +362,7 @@ generic(
     "C02", "model_checking",
     quick=[
         dict(scope="big", mode="exhaustive", maxops=3, limit=150, mc=False),
+        dict(scope="sf2", mode="exhaustive", maxops=3, limit=400, mc=False),
         dict(scope="neg", mode="simulate", num=30, depth=7, limit=300, mc=False),
         dict(scope="tree", mode="simulate", num=60, depth=8, limit=500, mc_maxgens=1, invariants=INV_C02),
         dict(scope="nest", mode="simulate", num=60, depth=8, limit=500, mc_maxgens=1, invariants=INV_C02, variants=[{"names": "plain"}, {"names": "mixed", "sfrev": True}, {"names": "nfd"}]),
@@ -538,15 +539,18 @@ generic(
            dict(scope="ren", mode="exhaustive", maxops=4, maxgens=2, select="two_renames", mc=False, tag="r"),
            dict(scope="rennest", mode="exhaustive", maxops=6, maxgens=5, select="rename_and_nested", mc_maxgens=5, invariants=INV_C17),
            dict(scope="chain", mode="simulate", num=60, depth=11, limit=500, mc_maxgens=2, invariants=INV_C17),
-           dict(scope="ren", mode="simulate", num=60, depth=10, limit=500, mc_maxgens=1, invariants=INV_C17)],
-    thorough=[dict(scope="chain2", mode="exhaustive", maxops=7, mc_maxgens=3, invariants=INV_C17),
+           dict(scope="ren", mode="simulate", num=60, depth=10, limit=500, mc_maxgens=1, invariants=INV_C17),
+           # whole directories renamed / moved (Layer P only: Layer M does not match directories yet, see DESIGN 11.3)
+           dict(scope="rendir", mode="simulate", num=150, depth=6, maxops=6, maxgens=4, limit=600, mc=False, tag="rd")],
+    thorough=[dict(scope="rendir", mode="simulate", num=1500, depth=7, maxops=7, maxgens=5, limit=6000, mc=False, tag="rd"),
+              dict(scope="chain2", mode="exhaustive", maxops=7, mc_maxgens=3, invariants=INV_C17),
               dict(scope="chain3", mode="exhaustive", maxops=9, maxgens=5, select="rename_chain3", limit=8000, mc_maxgens=5, invariants=INV_C17),
               dict(scope="chain", mode="simulate", num=1500, depth=13, mc_maxgens=3, invariants=INV_C17),
               dict(scope="ren", mode="simulate", num=1500, depth=12, mc_maxgens=2, invariants=INV_C17)],
     pclauses=["P_C17_Renamed", "P_C17_NoInternal", "P_C17_Altered", "P_C03_NoFalseAlarm", "P_C03_Removed", "P_C03_Added"],
     antecedent=lambda ln, v: bool(v.get("A_moves")) or bool(v.get("A_renames")),
     antecedent_text="a create -dr that faces at least one moved file, or any create / verify / diff on a history that already records renames",
-    extra_assumptions=["contents pairwise distinct (the scopes' environment never creates duplicate contents); folder renames are not generated"],
+    extra_assumptions=["contents pairwise distinct (the scopes' environment never creates duplicate contents); folder renames are generated in scope rendir and judged by Layer P only"],
 )
 
 
